@@ -199,6 +199,42 @@ def all_lifted_program(budget, depth):
     return build()
 
 
+def nested_handlers_program():
+    """Strategy: try forms nested 2-4 deep through handler bodies (or try bodies), the handlers binding variables drawn from
+    a two-name pool (so nested handlers often bind the same name), each level raising a drawn class (the handler fires or
+    not); every handler reads its variable before and after the nested try, so the temporaries of the levels must stay
+    distinct and alive."""
+    from hypothesis import strategies as st
+
+    @st.composite
+    def build(draw):
+        ids = itertools.count(1)
+
+        def level(d):
+            var = draw(st.sampled_from(["e", "e", "x"]))
+            cls = draw(st.sampled_from(["XA", "XB", "XC"]))
+            caught = draw(st.sampled_from([[cls], [cls], ["XA", "XB", "XC"], ["Exception"], [{"XA": "XB", "XB": "XC", "XC": "XA"}[cls]]]))
+            fires = draw(st.integers(0, 3)) != 0
+            nested = level(d - 1) if d > 0 else ["eff", next(ids), 0]
+            where = draw(st.sampled_from(["handler", "handler", "handler", "body"]))
+            body = [["eff", next(ids), 0]]
+            if where == "body":
+                body.append(nested)
+            body.append(["raise", cls, next(ids)] if fires else ["eff", next(ids), 1])
+            hb = [["eff", next(ids), None], ["var", var]]
+            if where == "handler":
+                b = "b%d" % next(ids)
+                hb = [["let", [[b, ["var", var]]], [nested, ["list", [["var", b], ["var", var]]]]]]
+            fin = [["eff", next(ids), None]] if draw(st.integers(0, 3)) == 0 else None
+            return ["try", body, [[var, caught, hb]], None, fin]
+
+        depth = draw(st.integers(1, 3))
+        prog = [["try", [level(depth)], [[None, [], [["eff", next(ids), "escaped"]]]], None, None]]
+        return prog
+
+    return build()
+
+
 def shard(ctx):
     from hypothesis import strategies as st
 
@@ -226,6 +262,8 @@ def shard(ctx):
 
     ctx.hyp(st.tuples(G.program(budget=40 if ctx.quick else 70, depth=4 if ctx.quick else 5), modes, names), one, ctx.per_shard(800, 80000), "c01-programs")
     ctx.hyp(st.tuples(all_lifted_program(30 if ctx.quick else 50, 2 if ctx.quick else 3), modes, names), one, ctx.per_shard(800, 80000), "all-arguments-lifted")
+
+    ctx.hyp(st.tuples(nested_handlers_program(), modes, names), one, ctx.per_shard(500, 20000), "nested-handlers")
 
     from vf import scopes as S
 
